@@ -2,6 +2,7 @@
 from ..world import tie_check
 from ..leangen import GenFile
 from .. import ex as X
+from ..sym import Untranslatable
 
 PID = 'C01'
 
@@ -63,16 +64,33 @@ def generate(seeds=(1, 2, 3), tier="quick"):
     g = GenFile(PID)
     stats = {}
     S = scenarios()
-    trees, ctxs = {}, {}
+    trees, ctxs, nodes = {}, {}, {}
     for name, scen in S.items():
         sw, outs, st = tie_check(scen, seeds)
         stats[name] = st
         trees[name] = sw.tree(outs[0])
         ctxs[name] = sw.ctx
+        nodes[name] = outs[0].cols[0]
         g.add_def(name, trees[name], f'traced from /repo: scenario {name}; variables {sw.ctx.vars}; symbols {sw.ctx.syms}')
 
     def V(name, v):
         return ('var', ctxs[name].vars.index(v))
+
+    # operation-order model: the value clauses hold EXACTLY in every arithmetic with the IEEE-754 identities (Calc/FEx.lean)
+    from .. import fex as F
+    specs = []
+    for sfx in [''] + [f'_u{j}' for j in range(3)]:
+        specs += [(f'ivp_d{sfx}_value_exact', 'ivp_d' + sfx, [('t', 't0')], 'u0', 'IVP (value mode): u(t0) is exactly u0'),
+                  (f'ivp_n{sfx}_value_exact', 'ivp_n' + sfx, [('t', 't0')], 'u0', 'IVP (value+derivative mode): u(t0) is exactly u0'),
+                  (f'dbvp{sfx}_left_exact', 'dbvp' + sfx, [('t', 't0')], 'u0', 'DirichletBVP: u(t0) is exactly u0'),
+                  (f'dbvp{sfx}_right_exact', 'dbvp' + sfx, [('t', 't1')], 'u1', 'DirichletBVP: u(t1) is exactly u1')]
+        for m in ('dd', 'dn', 'nd', 'nn'):
+            if m[0] == 'd':
+                specs.append((f'de_{m}{sfx}_left_exact', f'de_{m}' + sfx, [('x', 'x0')], 'a', f'DoubleEndedBVP1D {m.upper()}: u(x0) is exactly the prescribed value'))
+            if m[1] == 'd':
+                specs.append((f'de_{m}{sfx}_right_exact', f'de_{m}' + sfx, [('x', 'x1')], 'b', f'DoubleEndedBVP1D {m.upper()}: u(x1) is exactly the prescribed value'))
+    F.exact_part(g, PID, nodes, ctxs, specs, stats)
+
 
     for sfx in [''] + [f'_u{j}' for j in range(3)]:
         n = 'ivp_d' + sfx
@@ -124,8 +142,13 @@ def generate(seeds=(1, 2, 3), tier="quick"):
     return g, stats
 
 
+# the verified simplifier behind the generated *_exact theorems (hand-written, audited with the generated ones)
+STATIC = [('NdeVerif.Calc.FExSound', 'NdeVerif.FEx', ['normC_sound', 'eval_subst', 'exact_at', 'exact_at2', 'eval_withApp', 'exact_withApp', 'network_free_at']),
+          ('NdeVerif.Calc.FExReal', 'NdeVerif', ['realArith_exact'])]
+
 ASSUMPTIONS = [
-    'theorems are over the reals: floating-point rounding is not modelled',
+    'theorems are over the reals: floating-point rounding is not modelled - except the *_exact theorems of the operation-order model, which hold '
+    'in every arithmetic satisfying the IEEE-754 identities Arith.Exact (one working precision; parameters representable in it)',
     'a network is an arbitrary function symbol; derivative statements assume it is differentiable (Smooth I)',
     "Python truthiness of a numeric parameter inside constructors' validity checks is the generic case value != 0",
 ]
